@@ -138,7 +138,7 @@ def hf_channel_to_choi_op(hf0, dim_in):
     for ind0 in range(dim_in):
         for ind1 in range(dim_in):
             tmp0[ind0,ind1] = 1
-            ret.append(hf0(tmp0))
+            ret.append(np.array(hf0(tmp0))) #copy: hf0 may return its argument (or a view of it), which is reset below
             tmp0[ind0,ind1] = 0
     dim_out = ret[0].shape[0]
     ret = np.stack(ret, axis=0).reshape(dim_in,dim_in,dim_out,dim_out).transpose(0,2,1,3)
